@@ -97,10 +97,10 @@ Proof.
   apply Permutation_map. eapply perm_trans; [apply H1 | apply Permutation_sym, H2].
 Qed.
 
-Lemma rest_method_oracle : forall o1 o2 h m,
-  legal o1 -> legal o2 -> alias_injective m -> rest_method o1 h m = rest_method o2 h m.
+Lemma rest_method_oracle : forall o1 o2 v h m,
+  legal o1 -> legal o2 -> alias_injective m -> rest_method o1 v h m = rest_method o2 v h m.
 Proof.
-  intros o1 o2 h m H1 H2 Hinj. unfold rest_method.
+  intros o1 o2 v h m H1 H2 Hinj. unfold rest_method.
   fold (alias_map m).
   assert (E : map (fun n => match alookup n (fold_left (fun mp (e : string * string) => upsert (snd e) (fst e) mp) (o1 _ (alias_map m)) []) with
                             | Some r => r | None => n end) (rm_pparams m) =
@@ -146,14 +146,14 @@ Proof.
   assert (Em : forall acc,
     fold_left (fun a m => match a with
                           | None => None
-                          | Some ms => if rm_hasdoc m then match rest_method o1 h m with Some x => Some (ms ++ [x])%list | None => None end else Some ms
+                          | Some ms => if rm_hasdoc m then match rest_method o1 v h m with Some x => Some (ms ++ [x])%list | None => None end else Some ms
                           end) (ri_methods r) acc =
     fold_left (fun a m => match a with
                           | None => None
-                          | Some ms => if rm_hasdoc m then match rest_method o2 h m with Some x => Some (ms ++ [x])%list | None => None end else Some ms
+                          | Some ms => if rm_hasdoc m then match rest_method o2 v h m with Some x => Some (ms ++ [x])%list | None => None end else Some ms
                           end) (ri_methods r) acc).
   { revert Hok. unfold iface_ok. generalize (ri_methods r). induction l as [|m l IH]; intros Hok acc; cbn; auto.
-    rewrite (rest_method_oracle o1 o2 h m H1 H2) by (apply Hok; left; auto).
+    rewrite (rest_method_oracle o1 o2 v h m H1 H2) by (apply Hok; left; auto).
     apply IH. intros m' Hm'. apply Hok. right. auto. }
   rewrite Em.
   match goal with |- context [fold_left ?f (ri_methods r) (Some [])] => destruct (fold_left f (ri_methods r) (Some [])) as [ms|] end; [|exact I].
@@ -241,7 +241,7 @@ Section Nodup.
     - injection H as <- _ _ _. exact Hn.
     - destruct (make st (pview_of (mk_view hw disk ov)) T) as [d s st1|st1|]; [| |discriminate].
       + destruct (separate c).
-        * eapply IH; [|exact H]. apply upsert_nodup. exact Hn.
+        * destruct (ahas _ sm); [discriminate|]. eapply IH; [|exact H]. apply upsert_nodup. exact Hn.
         * eapply IH; [|exact H]. exact Hn.
       + eapply IH; eauto.
   Qed.
@@ -455,8 +455,8 @@ Lemma alias_dup_not_injective : ~ alias_injective dup_method.
 Proof. unfold alias_injective. vm_compute. intros H. inversion H as [|? ? Hn _]. apply Hn. left. reflexivity. Qed.
 
 Lemma alias_dup_order_dependent :
-  option_map md_pathparams (rest_method id_oracle dup_file dup_method) <>
-  option_map md_pathparams (rest_method rev_oracle dup_file dup_method).
+  option_map md_pathparams (rest_method id_oracle {| pv_hand := []; pv_gen := [] |} dup_file dup_method) <>
+  option_map md_pathparams (rest_method rev_oracle {| pv_hand := []; pv_gen := [] |} dup_file dup_method).
 Proof. vm_compute. discriminate. Qed.
 
 (* decidable forms of the guards *)
